@@ -391,6 +391,10 @@ func AppendNumber(_ *RuntimeContext, b []byte, n json.Number) ([]byte, error) {
 			return nil, fmt.Errorf("json: invalid number literal %q", n)
 		}
 	}
+	// the right characters in the wrong order ("+1", "1e", "--", "01", ".5") are not a number either
+	if !validNumberLiteral([]byte(n)) {
+		return nil, fmt.Errorf("json: invalid number literal %q", n)
+	}
 	b = append(b, n...)
 	return b, nil
 }
